@@ -412,7 +412,7 @@ def fasta_geometry(data):
     cur = None
     for k, ln in enumerate(lines):
         term = k < len(lines) - 1
-        if ln.startswith(b">"):
+        if ln.lstrip(b" \t\r\x0b\x0c").startswith(b">"):      # header_fasta skips white space in front of '>'
             cur = []
             recs.append(cur)
             continue
